@@ -109,7 +109,7 @@ def case_array(ctx, rng):
     import autoray as ar
 
     sr = ctx.sr
-    sym = rng.choice(gen.SYMS5)
+    sym = gen.pick_sym(rng)
     vals = gen.Values(rng, "int", dt(rng))
     op = rng.choice(["transpose", "conj", "dagger", "squeeze", "expand_dims", "scalar", "neg", "add", "sub", "mul", "multiply_diagonal", "sum", "norm", "abs"])
     ctx.count("arrayop", op)
@@ -404,7 +404,7 @@ def case_vector(ctx, rng):
     import autoray as ar
 
     sr = ctx.sr
-    sym = rng.choice(gen.SYMS5)
+    sym = gen.pick_sym(rng)
     cplx = rng.random() < 0.3
     vals = gen.Values(rng, "int", "complex128" if cplx else "float64")
     ix = gen.rand_index(sr, rng, sym, maxc=4, maxd=3, p_single=0.05)
